@@ -44,7 +44,7 @@ MANIFEST = dict(
          'the model`s, when the real message belongs to a modelled site. The hypothesis of the theorems (`compile = ok`) '
          'and their decidable conclusions (closed, = denote) are evaluated by the driver on every case. '
          '(TESTED, not proved) Everything the compile model leaves out - docs, defaults` values, annotations, examples, '
-         'the examples of patches, route attributes, versions` bookkeeping, the implicit members other than `other` - is decided by '
+         'the examples of patches, the validated attribute dictionaries of routes, versions` bookkeeping, the implicit members other than `other` - is decided by '
          'differential testing against a second implementation: harness/expected.py computes an independent reference image '
          'from the generating model (never from stone), harness/apisig.py dumps the real Api, and the two are compared '
          'field by field for every generated model under the reference layout, a random layout and with the namespace doc '
@@ -58,8 +58,8 @@ MANIFEST = dict(
          'harness/expected.py (the reference reading). The compile model leaves out, and its theorems say nothing about: '
          'docs and doc references, the effect of applied annotations on the image (deprecated / preview / omitted / '
          'redactor flags and the injected doc texts; their legality IS modelled, see C01), '
-         'examples (also those a patch adds), route attributes and the '
-         'stone_cfg namespace (dropped from both dumps), the value of a default (C10), `Api.normalize` (covered by the '
+         'examples (also those a patch adds), the validated attribute dictionary of a route (the legality of route attributes and '
+         'of stone_cfg IS modelled, see C01; stone_cfg leaves the Api and is dropped from both dumps), the value of a default (C10), `Api.normalize` (covered by the '
          'ordering theorems). Type references with mixed literal / type positional arguments or a type passed by keyword '
          'are outside its input (counted, skipped). The arguments of the built-in types are C01`s model '
          '(FeParams.instantiate), used as given by both `compile` and `denote`; `ns.List(T)` reads its arguments in `ns` in '
